@@ -26,10 +26,12 @@ pub fn exec(case: &Value) -> Value {
     } else {
         guard(|| parse_obj(bytes.iter().copied()))
     };
+    let mut vbits: Vec<Value> = vec![];
     let res = match r {
         None => json!(["panic", 0]),
         Some(Err(err)) => json!(["err", format!("{err:?}")]),
         Some(Ok(b)) => {
+            vbits = b.mesh.verts.iter().map(|v| json!([f32_rec(v.pos.x()), f32_rec(v.pos.y()), f32_rec(v.pos.z())])).collect();
             let verts: Vec<Value> = b
                 .mesh
                 .verts
@@ -62,7 +64,13 @@ pub fn exec(case: &Value) -> Value {
             json!(["ok", verts, faces, built])
         }
     };
+    // every coordinate as an f32 record (for the long-decimal table literals)
+    let vb: Vec<Value> = match &res[0].as_str() {
+        Some("ok") => vbits.clone(),
+        _ => vec![],
+    };
     e.as_object_mut().unwrap().insert("res".into(), res);
+    e.as_object_mut().unwrap().insert("vb".into(), json!(vb));
     e
 }
 
@@ -95,6 +103,8 @@ fn literal(rng: &mut Rng) -> String {
     s
 }
 
+const HARD: [&str; 20] = ["1.0000000596046447753906251", "1.0000000596046447753906249", "1.0000001788139343261718751", "1.0000001788139343261718749", "2.500000119209289550781251", "2.500000119209289550781249", "0.1562500074505805969238281251", "0.1562500074505805969238281249", "1000.0000305175781251", "1000.0000305175781249", "2.999999880790710449218751", "2.999999880790710449218749", "-1.0000000596046447753906251", "-1.0000000596046447753906249", "-1.0000001788139343261718751", "-1.0000001788139343261718749", "0.1875000223517417907714843751", "0.1875000223517417907714843749", "123.0000038146972656251", "123.0000038146972656249"];
+
 fn ws(rng: &mut Rng) -> &'static str {
     *rng.pick(&[" ", " ", "  ", "\t", " \t"])
 }
@@ -108,6 +118,15 @@ fn wellformed(rng: &mut Rng, big: bool) -> Vec<u8> {
     let mut vlines = vec![];
     for _ in 0..nv {
         vlines.push(format!("v{}{}{}{}{}{}", ws(rng), literal(rng), ws(rng), literal(rng), ws(rng), literal(rng)));
+    }
+    // a vertex or two written with the long decimals of spec/Obj.tla's HardLits table (value a hair off
+    // the midpoint of two f32 neighbours); the other coordinates are "0"
+    if rng.chance(1, 6) {
+        let hard = HARD[rng.below(HARD.len() as u64) as usize];
+        let mut c = ["0", "0", "0"];
+        c[rng.below(3) as usize] = hard;
+        let k = rng.below(vlines.len() as u64) as usize;
+        vlines[k] = format!("v{}{}{}{}{}{}", ws(rng), c[0], ws(rng), c[1], ws(rng), c[2]);
     }
     let mut flines = vec![];
     for _ in 0..nf {
